@@ -37,7 +37,10 @@ ERRORS = [
     ("unknown-keyword", ".bogus 1", 1), ("unterminated-comment", "/* never closed", 0),
 ]
 NOISE = ["", "", "; a comment", "   ; indented comment", "/* one line */", "/* two\n   lines */", "{\n    nop\n}",
-         ".macro zz_noise(a) {\n    .db a\n}", "\n\n", "zz_noise_label:", "nop ; trailing"]
+         ".macro zz_noise(a) {\n    .db a\n}", "\n\n", "zz_noise_label:", "nop ; trailing",
+         # characters that other line-splitting conventions treat as line ends, where the assembler accepts them as text
+         # (no CR: Python's text-mode reader turns it into a newline before the assembler sees an included file)
+         "; page\x0cbreak", "/* sep\u2028arator */", "; vt\x0b fs\x1c gs\x1d rs\x1e nel\x85 ps\u2029", "/* ff\x0c */", ".ascii 'a\x0cb'", "/*/ slash first */", "/*** stars ***/", "/**/", "\n", "; only\n\n; comments\n"]
 
 
 def cases(ctx):
